@@ -6,6 +6,13 @@ from openpyxl.utils import column_index_from_string
 from excel2pycl.src.exceptions import E2PyclCellException
 
 
+class TextConstant(str):
+    """
+    Text of a cell whose stored type is text although it starts with `=` (typed with a leading apostrophe in Excel):
+    a constant, not a formula.
+    """
+
+
 @dataclass
 class Cell:
     title: int or str
